@@ -5,23 +5,32 @@ that P1 reads, and an idle thread covers nothing).
 import TbbVerif.Proofs.C04.ReachJ
 
 namespace TbbVerif.C04
-variable {reg : List Nat} {s : St} {t : Nat}
+variable {cfg : Cfg} {reg : List Nat} {s : St} {t : Nat}
 
-theorem begin_frame : (begin reg s t).items = s.items ∧ (begin reg s t).skip = s.skip ∧
-    (begin reg s t).srcOf = s.srcOf ∧ (begin reg s t).epoch = s.epoch ∧ (begin reg s t).par = s.par ∧
-    (begin reg s t).can = s.can ∧ (begin reg s t).G = s.G := by
+theorem begin_frame : (begin cfg reg s t).items = s.items ∧ (begin cfg reg s t).skipSt = s.skipSt ∧
+    (begin cfg reg s t).srcOf = s.srcOf ∧ (begin cfg reg s t).epoch = s.epoch ∧ (begin cfg reg s t).par = s.par ∧
+    (begin cfg reg s t).can = s.can ∧ (begin cfg reg s t).G = s.G ∧ (begin cfg reg s t).pst = s.pst ∧
+    (begin cfg reg s t).wst = s.wst ∧ (begin cfg reg s t).rst = s.rst ∧ (begin cfg reg s t).oc = s.oc ∧
+    (begin cfg reg s t).fresh = s.fresh ∧ (begin cfg reg s t).joined = s.joined := by
   begin_cases
   all_goals simp
 
-theorem listed_begin (hS : Struct reg s) (hO : Orig s) (hR : Reach reg s) (hi : s.pc t = .idle) :
-    ∀ L x a, x ∈ (begin reg s t).items L →
-      PassedUpTo (begin reg s t).skip (begin reg s t).srcOf ((begin reg s t).epoch L) a →
-      Anc (begin reg s t).par x a →
-      (begin reg s t).can x = true ∨ ∃ t', ((begin reg s t).pc t').coverOf (begin reg s t).G = some x := by
-  obtain ⟨e1, e2, e3, e4, e5, e6, e7⟩ := begin_frame (reg := reg) (s := s) (t := t)
-  rw [e1, e2, e3, e4, e5, e6, e7]
-  intro L x a h1 h2 h3
-  rcases hR.listed L x a h1 h2 h3 with h | ⟨w, hw⟩
+theorem listed_begin (hS : Struct reg s) (hR : Reach reg s) (hi : s.pc t = .idle) :
+    ∀ L x a m, x ∈ (begin cfg reg s t).items L →
+      Passed (begin cfg reg s t).skipSt (begin cfg reg s t).srcOf (begin cfg reg s t).pst ((begin cfg reg s t).eff L) a m →
+      Cur (begin cfg reg s t).wst (begin cfg reg s t).rst a m →
+      Anc (begin cfg reg s t).par x a →
+      Vf (begin cfg reg s t).par (begin cfg reg s t).can (begin cfg reg s t).rst (begin cfg reg s t).oc m a x ∨
+        ∃ t', ((begin cfg reg s t).pc t').coverOf (begin cfg reg s t).G = some x := by
+  obtain ⟨e1, e2, e3, e4, e5, e6, e7, e8, e9, e10, e11, e12, e13⟩ := begin_frame (cfg := cfg) (reg := reg) (s := s) (t := t)
+  have eeff : ∀ L, (begin cfg reg s t).eff L = s.eff L := by
+    intro L
+    unfold St.eff
+    rw [e12, e13, e4]
+  simp only [eeff]
+  rw [e1, e2, e3, e5, e6, e7, e8, e9, e10, e11]
+  intro L x a m h1 h2 h3 h4
+  rcases hR.listed L x a m h1 h2 h3 h4 with h | ⟨w, hw⟩
   · exact Or.inl h
   · refine Or.inr ⟨w, ?_⟩
     have hwt : w ≠ t := by
